@@ -3,10 +3,17 @@
 import json, sys
 pid = sys.argv[1]
 wt = sys.argv[2]
+# ROUND2: optional third argument = json file {property: [one-line descriptions of changes already known]}
+known = []
+if len(sys.argv) > 3:
+    known = json.load(open(sys.argv[3])).get(pid, [])
 for l in open('/verif/properties.jsonl'):
     p = json.loads(l)
     if p['id'] == pid:
         break
+AVOID = ""
+if known:
+    AVOID = "The following changes are ALREADY KNOWN; do not repeat them or close variants of them - look for different mechanisms, different functions and different triggering conditions:\n" + "\n".join(known) + "\n\n"
 print(f"""You are helping to evaluate a verification effort for the Python library `formulae` (bambinos/formulae: a pure-Python Wilkinson formula parser and term algebra that builds design matrices for mixed-effects models from pandas DataFrames).
 
 You have your own scratch git worktree of the library at {wt} (a detached checkout; work ONLY inside this directory, never touch /repo or /verif, and do not read anything under /verif). Python is /venv/bin/python. IMPORTANT: the venv has `formulae` installed in editable mode pointing at another checkout, so ALWAYS run with PYTHONPATH={wt} (e.g. `cd {wt} && PYTHONPATH={wt} /venv/bin/python -m pytest -q -p no:cacheprovider`) and check with `PYTHONPATH={wt} /venv/bin/python -c "import formulae; print(formulae.__file__)"` that you import the worktree copy. There is no network. The test-suite has 137 tests; 135 pass and exactly two (tests/test_poly.py::test_basic and ::test_degree) fail already on the unchanged tree - ignore those two.
@@ -20,7 +27,7 @@ Code anchors: {', '.join(p['anchors']['files'])}
 
 YOUR TASK: produce THREE different, independent, realistic changes (bugs) to the library source under {wt}/formulae, each of which BREAKS this property, while (a) the package still imports, (b) all 135 currently-passing tests still pass with the change applied, and (c) the change looks like something that could plausibly slip through code review (a refactor gone subtly wrong, an off-by-one, a wrong default, a misplaced condition, an optimisation or cache that is unsound, two cooperating edits that each look fine alone, ...). Prefer changes that need something SPECIFIC to manifest - an unusual input, a particular combination or order of terms / levels / dtypes, a multi-step sequence of calls, a particular configuration - rather than ones that any ordinary use would expose at once. Do not make changes that only raise an obviously wrong exception on every call. Make the three changes different in mechanism and located in different functions where possible.
 
-For each change k in 1..3 create the directory {wt}/mutations/{pid}_k/ containing:
+{AVOID}For each change k in 1..3 create the directory {wt}/mutations/{pid}_k/ containing:
   - patch.diff : output of `git diff` for ONLY that change (relative to the unchanged worktree HEAD), appliable with `git apply` from the worktree root;
   - demo.py    : a small standalone program that exits with status 0 on the UNCHANGED tree and with a NON-ZERO status (e.g. a failed assert with a message) when the change is applied - it demonstrates the property violation through the public API (formulae.design_matrices, formulae.model_description, .evaluate_new_data, formulae.config ...); it is run as `PYTHONPATH={wt} /venv/bin/python demo.py`;
   - notes.md   : 5-10 lines: what the change is, which clause of the property it breaks, and what specific input / sequence is needed for it to show.
